@@ -188,6 +188,12 @@ var preSyms = []sym{
 }
 
 var extraSyms = []sym{
+	// long bodies: a later datagram of the exchange is longer than an earlier one (receive-buffer reuse shows)
+	{"WILLTOPIC(long)", func() *snref.Pkt { return snref.WillTopic("will/"+strings.Repeat("topic/", 10)+"end", 1, false) }},
+	{"WILLMSG(long)", func() *snref.Pkt { return snref.WillMsg([]byte(strings.Repeat("last words ", 20))) }},
+	{"AUTH(long-pw)", func() *snref.Pkt {
+		return &snref.Pkt{Type: snref.AUTH, Name: "PLAIN", Data: []byte("\x00user-three\x00" + strings.Repeat("pw", 20))}
+	}},
 	{"AUTH(empty-user-pw)", func() *snref.Pkt { return &snref.Pkt{Type: snref.AUTH, Name: "PLAIN", Data: []byte("\x00\x00")} }},
 	{"AUTH(lowercase-method)", func() *snref.Pkt { return &snref.Pkt{Type: snref.AUTH, Name: "plain", Data: []byte("\x00u\x00p")} }},
 	{"WILLTOPIC(q2)", func() *snref.Pkt { return snref.WillTopic("w/2", 2, false) }},
@@ -319,10 +325,10 @@ var wlConnectRandom = Workload{
 			seq = append(seq, pick("CONNECT", "CONNECT", "CONNECT(ka=0)"))
 		}
 		if auth || rng.Intn(4) == 0 {
-			seq = append(seq, pick("AUTH(u1:p1)", "AUTH(u1:p1)", "AUTH(u2:p2)", "AUTH(malformed)", "AUTH(unknown-method)", "AUTH(4-parts)", "AUTH(empty-user-pw)", "AUTH(lowercase-method)"))
+			seq = append(seq, pick("AUTH(u1:p1)", "AUTH(u1:p1)", "AUTH(u2:p2)", "AUTH(long-pw)", "AUTH(malformed)", "AUTH(unknown-method)", "AUTH(4-parts)", "AUTH(empty-user-pw)", "AUTH(lowercase-method)"))
 		}
 		if will {
-			seq = append(seq, pick("WILLTOPIC(w/t,q1,r)", "WILLTOPIC(q2)", "WILLTOPIC(q0,r)", "WILLTOPIC(empty)", "WILLTOPIC(q3)"), pick("WILLMSG(bye)", "WILLMSG(bye)", "WILLMSG(empty)"))
+			seq = append(seq, pick("WILLTOPIC(w/t,q1,r)", "WILLTOPIC(q2)", "WILLTOPIC(q0,r)", "WILLTOPIC(long)", "WILLTOPIC(empty)", "WILLTOPIC(q3)"), pick("WILLMSG(bye)", "WILLMSG(bye)", "WILLMSG(long)", "WILLMSG(empty)"))
 		}
 		// perturbations: drop, duplicate, swap, insert random symbols
 		for m := rng.Intn(4); m > 0 && len(seq) > 0; m-- {
